@@ -935,7 +935,8 @@ namespace avel {
     [[nodiscard]]
     AVEL_FINL vec4x32f negate(mask4x32f m, vec4x32f v) {
         #if defined(AVEL_AVX512VL) || defined(AVEL_AVX10_1)
-        return vec4x32f{_mm_mask_sub_ps(decay(v), decay(m), _mm_setzero_ps(), decay(v))};
+        auto bits = _mm_castps_si128(decay(v));
+        return vec4x32f{_mm_castsi128_ps(_mm_mask_xor_epi32(bits, decay(m), bits, _mm_set1_epi32(float_sign_bit_mask_bits)))};
 
         #elif defined(AVEL_SSE2)
         auto negation_mask = _mm_and_ps(decay(m), _mm_set1_ps(float_sign_bit_mask));
